@@ -228,6 +228,9 @@ func (c *neoChain) witness(msg []byte, t, prev *neoSet, mode, p, q int64) (inv, 
 		return c.cd.invocation(sigsOf(pick(t, t.m-1))), t.script, label
 	case 2:
 		sel := pick(t, t.m-1)
+		if len(sel) == 0 { // m = 1 (a single state validator): the one signer twice
+			sel = pick(t, 1)
+		}
 		sigs := sigsOf(sel)
 		sigs = append([][]byte{sigs[0]}, sigs...) // the first signer twice: m entries, m-1 distinct
 		return c.cd.invocation(sigs), t.script, label
